@@ -90,6 +90,14 @@ def stepInst (b : Builder) (ws : List String) : Except String Builder :=
       .ok { b with inst := { b.inst with fVehDur := a, fTravel := b1, fUnplanned := c, fActivation := d,
                                           fMinStops := e, fEarly := f, fLate := g, fBalance := h } }
     | _ => .error "fac"
+  | ["soft", spec] =>
+    match allSome ((parseCsv spec).map (fun w => match w.splitOn ":" with
+      | [r, f, o] => (match r.toNat?, parseRat? f, parseRat? o with
+        | some r, some f, some o => some (r, f, o)
+        | _, _, _ => none)
+      | _ => none)) with
+    | some l => .ok { b with inst := { b.inst with soft := l } }
+    | none => .error "soft"
   | ["gdur", g] =>
     match csvRats g with
     | some l => .ok { b with inst := { b.inst with groupDur := l.toArray } }
@@ -238,6 +246,10 @@ def verdict (inst : Inst) (o : Obs) : List String := Id.run do
         out := out ++ [s!"C05:unplanned-penalty:{sigd}:spec={showRat (mine.getD k 0)}-code={showRat (theirs.getD k 0)}"]
       else
         out := out ++ [s!"C05:{names.getD k ""}:-:spec={showRat (mine.getD k 0)}-code={showRat (theirs.getD k 0)}"]
+  -- the ninth slot: every term the specification's `Terms` does not know — the soft capacities, or nothing
+  let soft := softCap inst o.routes
+  if !(near soft (theirs.getD 8 0)) then
+    out := out ++ [s!"C05:soft-capacity:-:spec={showRat soft}-code={showRat (theirs.getD 8 0)}"]
   let total := theirs.getD 9 0
   if !(near (sumRat (theirs.take 9)) total) then
     out := out ++ [s!"C05:total-not-sum-of-terms:-:total={showRat total}"]
